@@ -520,8 +520,21 @@ def b_bytes(ip, v=b'', *a):
         ts = [z3.Unit(z3.Int2BV(ops.term(x, 'int'), 8)) for x in v.items]
         return Sym(ops.mk_concat(ts), 'bytes')
     c = ops.const_int(v)
-    if c is not None:
+    if c is not None and not a:
+        if c < 0:
+            ip.ctx.raise_exc('ValueError', 'negative count')
+        ip.state.events.append(('alloc', (c,), {}))
         return bytes(c)
+    if isinstance(v, Sym) and v.ty == 'int' and not a:
+        # bytes(n): n zero bytes - an allocation of n bytes (ghost event, see C14), ValueError for a negative n
+        if ip.ctx.branch(ops.sbool(v.t < 0)):
+            ip.ctx.raise_exc('ValueError', 'negative count')
+        ip.state.events.append(('alloc', (Sym(v.t, 'int'),), {}))
+        t = ip.ctx.fresh('zero_bytes', BytesSort)
+        ops.set_len_term(t, v.t)
+        return Sym(t, 'bytes')
+    if v is None and not a:
+        ip.ctx.raise_exc('TypeError', "cannot convert 'NoneType' object to bytes")
     raise Unsupported('bytes(%r)' % (v,))
 
 
